@@ -5,12 +5,7 @@ import ZV.Proofs.C05
   by T2 (encoded bytes of every entry list and the parsed (serial, time, reason, #extensions) vectors).
 -/
 namespace ZV.C05
-open ZV ZV.Der
-
-/-- abstract view of the parser's reason scan: the LAST reasonCode extension wins (each one overwrites). -/
-def scanReasonA : List EExt → Option Int → (EExt → Option Int) → Option Int
-  | [], acc, _ => acc
-  | x :: xs, acc, dec => if x.oid = reasonOID then scanReasonA xs (dec x) dec else scanReasonA xs acc dec
+open ZV ZV.Der ZV.C06 ZV.C04
 
 /-- the extra extensions other than reasonCode survive, in order. -/
 theorem extras_preserved (e : Entry) :
@@ -52,31 +47,7 @@ theorem normReason_table (r : Option Int) :
     including ones that carry user-supplied reasonCode extensions with contradicting values. -/
 theorem entry_roundtrip_reason (e : Entry) (dec : EExt → Option Int)
     (hdec : ∀ n, normReason e.reason = some n → dec (reasonExt n) = some n) :
-    scanReasonA (synthExts e) none dec = normReason e.reason := by
-  have key : ∀ (l : List EExt) (acc : Option Int), (∀ x ∈ l, x.oid ≠ reasonOID) → scanReasonA l acc dec = acc := by
-    intro l
-    induction l with
-    | nil => intro acc _; rfl
-    | cons x xs ih =>
-      intro acc hx
-      have : x.oid ≠ reasonOID := hx x List.mem_cons_self
-      simp only [scanReasonA, this, if_false]
-      exact ih acc (fun y hy => hx y (List.mem_cons_of_mem _ hy))
-  have app : ∀ (l1 l2 : List EExt) (acc : Option Int), (∀ x ∈ l1, x.oid ≠ reasonOID) →
-      scanReasonA (l1 ++ l2) acc dec = scanReasonA l2 acc dec := by
-    intro l1
-    induction l1 with
-    | nil => intro l2 acc _; rfl
-    | cons x xs ih =>
-      intro l2 acc hx
-      have : x.oid ≠ reasonOID := hx x List.mem_cons_self
-      simp only [List.cons_append, scanReasonA, this, if_false]
-      exact ih l2 acc (fun y hy => hx y (List.mem_cons_of_mem _ hy))
-  unfold synthExts
-  rw [app _ _ _ (by intro x hx; have := (List.mem_filter.mp hx).2; simpa using this)]
-  cases h : normReason e.reason with
-  | none => rfl
-  | some n => simp [scanReasonA, reasonExt]; exact hdec n h
+    scanReasonA (synthExts e) none dec = normReason e.reason := scanReasonA_synth e dec hdec
 
 set_option maxRecDepth 1000000 in
 theorem enum_all :
@@ -88,9 +59,6 @@ theorem enum_roundtrip (n : Nat) (h : n < 128) : parseEnum (reasonExt (n : Int))
   have := enum_all
   rw [List.all_eq_true] at this
   simpa using this n (List.mem_range.mpr h)
-
-/-- the model's own decoder of a reasonCode extension value -/
-def decM (x : EExt) : Option Int := match parseEnum x.value with | .ok n => some n | _ => none
 
 /-- `entry_roundtrip` with the model's decoder, for every reason code in 0..127 (nil allowed) and every list of
     extra extensions. -/
@@ -139,5 +107,111 @@ theorem crl_number_rule (n : Int) : crlNumberOk n = true ↔ n.natAbs < 2 ^ 159 
 
 example : ∀ n, (⟨5, [], some 4, [⟨reasonOID, false, [0x0a, 0x01, 0x09]⟩]⟩ : Entry).reason = some n → 0 ≤ n ∧ n < 128 := by
   intro n h; simp at h; omega
+
+/-! ### byte level -/
+
+/-- **DER INTEGER, any size**: `parseBigInt (encBigInt v) = v` for EVERY integer — `encBigInt` writes the minimal
+    two's-complement octets (serial numbers, ENUMERATED reason codes, CRL numbers). -/
+theorem bigint_roundtrip (v : Int) : parseBigInt (encBigInt v) = .ok v := parseBigInt_encBigInt v
+
+/-- the ENUMERATED decoder reads back EVERY synthesised reason code (not only 0..127); the only side condition is
+    that the contents fit a DER length. -/
+theorem enum_roundtrip_all (n : Int) (hl : (encBigInt n).length < 2147483648) :
+    parseEnum (reasonExt n).value = .ok n := parseEnum_reasonExt n hl
+
+example : (encBigInt (-129)).length < 2147483648 ∧ encBigInt (-129) = [0xff, 0x7f] := by decide
+
+/-- `entry_roundtrip_reason_model` without the 0..127 restriction. -/
+theorem entry_roundtrip_reason_any (e : Entry) (h : ∀ n, e.reason = some n → (encBigInt n).length < 2147483648) :
+    scanReasonA (synthExts e) none decM = normReason e.reason := by
+  apply entry_roundtrip_reason
+  intro n hn
+  have hr : e.reason = some n := by
+    cases hre : e.reason with
+    | none => simp [normReason, hre] at hn
+    | some m =>
+      simp only [normReason, hre] at hn
+      split at hn
+      · cases hn
+      · simp at hn; simp [hn]
+  simp [decM, parseEnum_reasonExt n (h n hr)]
+
+example : ∀ n, (⟨5, [], some (-70000), []⟩ : Entry).reason = some n → (encBigInt n).length < 2147483648 := by
+  intro n h; simp at h; subst h; decide
+
+/-- revocation time: the UTCTime / GeneralizedTime element the encoder writes is read back to the same 14 digits,
+    for every well-formed time (the century of a UTCTime is restored from the two-digit year). -/
+theorem time_roundtrip (t : Bytes) (h : validTime t = true) :
+    ∃ tag body, encTime t = writeTLV tag body ∧ timeDigits (elemOf tag body) = .ok t := by
+  obtain ⟨tag, body, h1, _, _, h2⟩ := encTime_decode t h
+  exact ⟨tag, body, h1, h2⟩
+
+/-- "20491231235959" (UTCTime) and "20500101000000" (GeneralizedTime) -/
+example : validTime [0x32, 0x30, 0x34, 0x39, 0x31, 0x32, 0x33, 0x31, 0x32, 0x33, 0x35, 0x39, 0x35, 0x39] = true ∧
+    validTime [0x32, 0x30, 0x35, 0x30, 0x30, 0x31, 0x30, 0x31, 0x30, 0x30, 0x30, 0x30, 0x30, 0x30] = true := by
+  decide
+
+/-- entry extension codec: `parseExtension` on the SEQUENCE `encExtension` writes returns (OID contents, critical,
+    value), for every extension whose OID is in the reader's domain. -/
+theorem extension_roundtrip (x : EExt) (b : Bytes) (h : encExtension x = some b) (hok : oidOk x.oid = true)
+    (hlen : b.length < 2147483648) :
+    b = writeTLV 0x30 (extBody x) ∧ encOID x.oid = some (oidC x) ∧
+      parseEExt (elemOf 0x30 (extBody x)) = .ok (oidC x, x.critical, x.value) := by
+  obtain ⟨h1, h2⟩ := encExtension_eq h
+  subst h2
+  have := writeTLV_length_ge 0x30 (extBody x)
+  exact ⟨rfl, h1, parseEExt_build x (validOID_encOID h1 hok) (by omega)⟩
+
+example : encExtension ⟨[2, 5, 29, 24], true, [0x18, 0]⟩ = some [0x30, 0x0c, 6, 3, 0x55, 0x1d, 0x18, 1, 1, 0xff, 4, 2, 0x18, 0]
+    ∧ oidOk [2, 5, 29, 24] = true := by decide
+
+/-- the arc-level reason theorems lifted to bytes: the parser's scan over (OID contents, critical, value) triples,
+    comparing content octets with those of 2.5.29.21, computes the arc-level last-wins scan. -/
+theorem reason_scan_bytes (l : List EExt) (acc : Option Int)
+    (h1 : ∀ x ∈ l, encOID x.oid = some (oidC x) ∧ (x.oid = reasonOID ∨ oidOk x.oid = true))
+    (h2 : ∀ x ∈ l, x.oid = reasonOID → ∃ n, parseEnum x.value = .ok n) :
+    scanReason roB (l.map triple) acc = .ok (scanReasonA l acc decM) ∧ encOID reasonOID = some roB :=
+  ⟨scanReason_lift l acc h1 h2, encOID_reason⟩
+
+/-- **entry_roundtrip (bytes)**: `parseEntry (encEntry e) = e` — serial ANY integer, the 14-digit time, the reason
+    normalised (nil and 0 → nil, any other integer kept, user-supplied reasonCode extensions ignored), and the number
+    of extensions that of the synthesised list — for every entry of the domain `Entry.ok` (well-formed time; OIDs of
+    the non-reasonCode extras within the reader's MaxInt32 limit) whose encoding is shorter than 2^31 octets. -/
+theorem entry_roundtrip_bytes (e : Entry) (bs : Bytes) (h : encEntry e = some bs) (hok : e.ok = true)
+    (hlen : bs.length < 2147483648) :
+    ∃ el, readElem bs = .ok (el, []) ∧ el.full = bs ∧ parseEntry el = .ok e.parsed :=
+  parseEntry_encEntry e bs h hok hlen
+
+/-- **revlist_entries_roundtrip (bytes)**: `parseEntries (encEntries es) = es.map parsed`. -/
+theorem revlist_entries_roundtrip_bytes (es : List Entry) (bs : Bytes) (h : encEntries es = some bs)
+    (hok : ∀ e ∈ es, e.ok = true) (hlen : ∀ e ∈ es, ∀ b, encEntry e = some b → b.length < 2147483648) :
+    parseEntries bs = .ok (es.map Entry.parsed) := parseEntries_encEntries es bs h hok hlen
+
+/-- an entry with a negative multi-octet serial, a GeneralizedTime date, a contradicting user-supplied reasonCode
+    extension, a critical extra extension and a large reason code -/
+def sampleEntry : Entry :=
+  ⟨-123456789012345678901234567890, [0x32, 0x30, 0x35, 0x30, 0x30, 0x31, 0x30, 0x31, 0x30, 0x30, 0x30, 0x30, 0x30, 0x30], some 300,
+    [⟨reasonOID, false, [0x0a, 0x01, 0x09]⟩, ⟨[2, 5, 29, 24], true, [0x18, 0]⟩]⟩
+
+example : sampleEntry.ok = true ∧ (encEntry sampleEntry).isSome = true ∧
+    (match encEntry sampleEntry with | some b => decide (b.length < 2147483648) | none => false) = true ∧
+    sampleEntry.parsed = ⟨-123456789012345678901234567890,
+      [0x32, 0x30, 0x35, 0x30, 0x30, 0x31, 0x30, 0x31, 0x30, 0x30, 0x30, 0x30, 0x30, 0x30], some 300, 2⟩ := by
+  decide
+
+/-- the cRLNumber value of an accepted number parses back to the number. -/
+theorem crl_number_roundtrip (n : Int) (h : crlNumberOk n = true) :
+    crlNumberExt n = .ok (writeTLV 0x02 (encBigInt n)) ∧
+    (someElem (field (.univ 2 false) false (writeTLV 0x02 (encBigInt n)))).bind (fun e => parseBigInt e.1.body) = .ok n := by
+  have hl := (encBigInt_length n).2
+  have hlog : n.natAbs.log2 < 159 := by
+    by_cases h0 : n.natAbs = 0
+    · rw [h0]; decide
+    · exact (Nat.log2_lt h0).mpr ((crl_number_rule n).mp h)
+  refine ⟨by simp [crlNumberExt, h, tlv], ?_⟩
+  rw [field_tlv_end _ _ _ _ (by decide) (by omega) (by simp [Want.ok, hdrOf])]
+  simp [someElem, Res.bind, parseBigInt_encBigInt]
+
+example : crlNumberOk (2 ^ 159 - 1) = true := by decide
 
 end ZV.C05
